@@ -65,7 +65,8 @@ def check(ctx, run):
         state = {"i": 0, "fc": 0}
         holder = {}
 
-        def waitpid(pid, ref, opts):
+        def waitpid(ev_, pid, ref, opts):
+            # (the evaluator that folds the call: the status variable may be a local of an inlined helper)
             e = events[min(state["i"], len(events) - 1)]
             state["i"] += 1
             log.append(("waitpid", pid, opts))
@@ -73,12 +74,15 @@ def check(ctx, run):
                 raise Halt("more than 200 waits")
             if e[0] == "ok":
                 if isinstance(ref, tuple) and ref[0] == "ref":
-                    holder["ev"].env[ref[1]] = e[1]
+                    ev_.env[ref[1]] = e[1]
+                    ev_.stores.append((ref[1], e[1]))
                 else:
                     raise Unknown("status argument of waitpid is not the address of a local")
                 return pid if pid == CHILD else CHILD
-            holder["ev"].env["ERRNO[0]"] = e[1]
+            ev_.env["ERRNO[0]"] = e[1]
+            ev_.stores.append(("ERRNO[0]", e[1]))
             return -1
+        waitpid.wants_ev = True
 
         def fcount(*a_):
             v = failure_counts[min(state["fc"], len(failure_counts) - 1)]
@@ -217,6 +221,13 @@ def check(ctx, run):
     for slot, fn_, libc in (("PlatformSpecificFork", "PlatformSpecificForkImplementation", "fork"), ("PlatformSpecificWaitPid", "PlatformSpecificWaitPidImplementation", "waitpid")):
         f = prog.fn(fn_)
         run.analysed(f)
-        rets = [render(f, f.node(n.get("value"))) for n in f.walk() if n["k"] == "ReturnStmt"]
-        want = "%s(%s)" % (libc, ", ".join(q["name"] for q in f.params))
-        run.ob("R4", "%s forwards to %s" % (fn_, libc), f.site, rets == [want] and prog.slots().get(slot) == {f.mn}, witness=rets)
+        seen = []
+        ev = Evaluator(prog, f, env={q["name"]: 40 + i_ for i_, q in enumerate(f.params)}, calls={libc: lambda *a_: (seen.append(tuple(a_)), 4711)[1]})
+        try:
+            ev.run_blocks(f.entry, max_steps=200)
+            r = getattr(ev, "ret", None)
+        except Unknown as u:
+            r = "unknown: %s" % u
+        ok = seen == [tuple(40 + i_ for i_ in range(len(f.params)))] and r == 4711
+        run.ob("R4", "%s forwards to %s" % (fn_, libc), f.site, ok and prog.slots().get(slot) == {f.mn}, witness={"%s called with" % libc: [list(x) for x in seen], "returns": r},
+               what="" if ok else "the seam does not hand its own arguments to %s once and return its result" % libc)
